@@ -198,6 +198,8 @@ var reRemoveTag = regexp.MustCompile(`</?[bi]/?>`)
 
 func suiteC17(cfg Config, res *Result) {
 	defer c17Literals(res)
+	defer filtersSeeCurrentText(res, "filter", "c17-filter-aliases-input")
+	defer recursiveMacroNodes(res, "filter", "c17-recursive-filter-tag", "filter")
 	defer c17FilterTagEscape(res)
 	defer c17UnderSwitch(res)
 	res.Rule = "inputs: single runes of the BMP (every rune < 0x500 and a stride of the rest in quick; all in thorough), 256 single bytes, astral runes, all pairs and triples over & < > \" ' \\ / space % + # ; a ü 0xFF, random strings mixing specials, multi-byte runes, invalid UTF-8, existing entities and backslash sequences; each through ApplyFilter (a sample also as a value marked safe and as the result of a macro call) for escape e escapejs urlencode iriencode addslashes striptags safe (and removetags model-free); compared with the model and judged by the harness's own decoders; non-trivial = input containing a special or non-ASCII byte; distinct by (filter, input)"
